@@ -270,14 +270,21 @@ def coerce_default_value(
     # field on the GraphQLDefaultInput object. (Contrary to GraphQL.js, which
     # memoizes on the input value itself, this also works for the immutable
     # variable signatures that reuse this function for fragment arguments.)
+    # The default input object can be shared between input values of different
+    # types (e.g. when a schema is extended, the extended types reuse the default
+    # input objects of the original ones), so the memoized value is only valid
+    # for the type it has been coerced with.
     default_input = input_value.default
     if default_input is not None:
-        coerced_value = default_input._memoized_coerced_value  # noqa: SLF001
-        if coerced_value is Undefined:
+        input_type = input_value.type
+        memoized = default_input._memoized_coerced_value  # noqa: SLF001
+        if memoized is not Undefined and memoized[0] is input_type:
+            coerced_value = memoized[1]
+        else:
             coerced_value = (
-                coerce_input_literal(default_input.literal, input_value.type)
+                coerce_input_literal(default_input.literal, input_type)
                 if default_input.literal is not None
-                else coerce_input_value(default_input.value, input_value.type)
+                else coerce_input_value(default_input.value, input_type)
             )
             if coerced_value is Undefined:
                 found = (
@@ -290,7 +297,10 @@ def coerce_default_value(
                     f" to be valid, found: {found}."
                 )
                 raise TypeError(msg)
-            default_input._memoized_coerced_value = coerced_value  # noqa: SLF001
+            default_input._memoized_coerced_value = (  # noqa: SLF001
+                input_type,
+                coerced_value,
+            )
         return coerced_value
 
     # The deprecated internal default value is used as is.
